@@ -282,3 +282,46 @@ def real_descriptions_below_a_real_layer(n):
     H.check("C06:own-response-is-attributed-through-the-request-with-the-original-values",
             H.And(len(back) == 1, all([m.service is a and m.param_dict["retry"] == retry and
                                        m.param_dict["code"] == code for m in back])))
+
+
+# ---------------------------------------------------------------------------------------------------------------
+# the services a layer attributes messages to are the services it has after inheritance: a base variant with two
+# functional-group parents that both define a service of the same name; the parent references may exclude it
+from contracts.hierarchy import GhostLayer, GhostParentRef, _local, _not_inherited  # noqa: E402
+from odxtools.diaglayers.hierarchyelement import HierarchyElement  # noqa: E402
+from odxtools.nameditemlist import NamedItemList  # noqa: E402
+
+
+@harness(props=["C06", "C09"], strength="B",
+         family=lambda t, s: [{"excluded_from_a": x, "excluded_from_b": y} for x in (False, True) for y in (False, True)
+                              if x or y],
+         bound="a base variant with two functional-group parents which both define a service named read_ident (requests "
+         "of 3 and of 4 bytes); each parent reference may exclude it; message = own request encodings, values symbolic",
+         functions=[HierarchyElement._compute_available_objects, DiagLayer.decode, DiagLayer._find_services_for_uds,
+                    DiagLayer._prefix_tree, DiagService.decode_message],
+         covers=["done"], assumes=["A-bitstruct", "A-lib"], crosscheck=False)
+def inheriting_layer_attributes_messages_to_the_services_it_inherits(excluded_from_a, excluded_from_b):
+    """a request is attributed by the inheriting layer iff the layer inherits the service: a NOT-INHERITED entry of one
+    parent reference does not hide the same-named service of the other parent"""
+    a, b = _real_services()
+    a.short_name = b.short_name = "read_ident"
+    fg_a, fg_b, bv = GhostLayer("fg_a", "FG"), GhostLayer("fg_b", "FG"), GhostLayer("bv", "BV")
+    fg_a.local.append(a)
+    fg_b.local.append(b)
+    bv.parent_refs.append(GhostParentRef(fg_a, ["read_ident"] if excluded_from_a else []))
+    bv.parent_refs.append(GhostParentRef(fg_b, ["read_ident"] if excluded_from_b else []))
+    bv._diag_services = NamedItemList(list(bv._compute_available_objects(_local, _not_inherited)))
+    bv._global_negative_responses = NamedItemList([])
+    x, ident, y = H.int("x", 0, 255), H.int("ident", 0, 65535), H.int("y", 0, 255)
+    H.cover("done")
+    for (svc, excluded, rq) in ((a, excluded_from_a, a._request.encode(x=x)),
+                                (b, excluded_from_b, b._request.encode(ident=ident, y=y))):
+        try:
+            msgs = bv.decode(bytes(rq))
+        except DecodeError:
+            msgs = []
+        own = [m for m in msgs if m.service is svc and m.coding_object is svc._request]
+        H.check("C06,C09:a-request-is-attributed-to-its-service-iff-the-layer-inherits-the-service",
+                len(own) == (0 if excluded else 1))
+        H.check("C06:messages-are-attributed-to-services-of-the-layer-only",
+                all([m.service is (b if excluded_from_a else a) for m in msgs]))
